@@ -167,7 +167,11 @@ func c13Run(prefix int, ops []c13Op) (stream []byte, msg string) {
 			if o.Kind == 1 {
 				recs = append(recs, fitmodel.Data(o.Local, pl))
 			} else {
-				recs = append(recs, fitmodel.Compressed(o.Local, byte(i*3), pl))
+				off := byte(9) // even positions: a constant offset, so that identical header bytes recur across a redefinition
+				if i%2 == 1 {
+					off = byte(i * 3)
+				}
+				recs = append(recs, fitmodel.Compressed(o.Local, off, pl))
 			}
 			if !m.fail {
 				if g, want, ok := c13Expected(d, pl); ok {
